@@ -71,7 +71,9 @@ func (k Keeper) IterateDelegationsForStakerAndAsset(ctx sdk.Context, stakerID st
 }
 
 func (k Keeper) IterateDelegationsForStaker(ctx sdk.Context, stakerID string, opFunc DelegationOpFunc) error {
-	return k.IterateDelegations(ctx, []byte(stakerID), opFunc)
+	// the separator belongs to the prefix: staker ids end in the hexadecimal client chain id
+	// without padding, so "0x..._0x6" is a textual prefix of "0x..._0x65"
+	return k.IterateDelegations(ctx, []byte(stakerID+"/"), opFunc)
 }
 
 // TotalDelegatedAmountForStakerAsset query the total delegation amount of the specified staker and asset.
